@@ -68,6 +68,17 @@ def main(tier, seed):
         if e or not rs:
             rep.inconclusive.append('differential case %s could not be run: %s' % (c, e))
             continue
+        nv = judge(obs)
+        iv = [r for r in rs if r['verdict'] == 'cex']
+        if nv or iv:
+            if nv and iv:
+                rep.replays_agreed += 1
+                script['property'] = PROP
+                path = runner.write_replay(PROP, 'diff_key_%s' % '_'.join(map(str, c)), script)
+                rep.violation(path, 'key %r (code points %s): %s' % (''.join(chr(ch) for ch in c), c, nv[0]))
+            else:
+                rep.inconclusive.append('MODEL-MISMATCH: key %s: interpreter verdict %s, native verdict %s' % (c, [r.get('detail') for r in iv], nv))
+            continue
         comps = {''.join(chr(x) if x is not None else '?' for x in r['component']) for r in rs if r.get('component') is not None}
         dirs = [f for f in obs[-1].get('files', []) if f.endswith('/') and f.count('/') == 2 and f.startswith('d/')]
         names = {d[2:-1] for d in dirs}
@@ -76,7 +87,7 @@ def main(tier, seed):
             rep.inconclusive.append('MODEL-MISMATCH: key %s: interpreter component %s, real directory %s' % (c, sorted(comps), sorted(names)))
         else:
             rep.replays_agreed += 1
-    if rep.inconclusive:
+    if rep.inconclusive or rep.violations:
         return rep.finish()
     # 2. symbolic exploration
     jobs = [dict(len=n, ctor=ct) for ct in CTORS for n in range(0, maxlen + 1)]
